@@ -7,8 +7,8 @@ Case (tree):  [n, shard_chooser, identity_chooser, execute_chooser, init, ops]  
   identity_chooser  table of shard lists indexed by pk mod len
   execute_chooser   [all, grp_table, pk_table, val_table]: shard lists per query kind / argument
   init              rows [pk, grp, val] present in each shard before the session starts
-  ops               [0,pk,grp,val,pre] add | [1,o,g,v] set | [2] flush | [3] commit | [4,o] delete |
-                    [5,qkind,arg,tgt,how] query | [6,k,tok] get | [7,o] refresh
+  ops               [0,pk,grp,val,pre] add | [1,o,g,v] set | [2] flush | [3] commit | [4,[o..]] delete (one flush) |
+                    [5,qkind,arg,tgt,how] query | [6,k,tok] get | [7,o] refresh | [8,pk,grp,val,tok] merge
 Observation (run_full): [per-op [ret, writes, shards read, object states, visible rows per shard], error code,
 committed rows per shard]; model and implementation are compared through a digest of it (run_case).
 """
@@ -26,11 +26,11 @@ RUNNER = ("SAV.orm.ShardRun", "run_case")
 STATIC_MODULES = ["SAV.orm.ShardRun"]
 RULE = (
     "programs of 1..9 session operations (add [with/without preset identity token], attribute change, flush, "
-    "commit, delete, query by all/grp/pk/val with or without an explicit shard given through set_shard / "
+    "commit, delete of one or several objects in one flush, merge of a detached object carrying an identity token, query by all/grp/pk/val with or without an explicit shard given through set_shard / "
     "bind_arguments / set_shard_id, get with and without identity_token, refresh) against 2-3 SQLite file "
     "databases pre-seeded with generated rows (same primary keys in several shards on purpose) under "
     "generated table-encoded shard/identity/execute choosers (hash, attribute and range based; execute "
-    "choosers may repeat or omit shards, rarely return no shard). Families: all ordered pairs of 26 fixed "
+    "choosers may repeat or omit shards, rarely return no shard). Families: all ordered pairs of 30 fixed "
     "operations (incl. primary-key conflicts, preset token, no-net-change assignment, an assignment that makes "
     "the chooser prefer another shard) after a fixed prefix in a fixed 2-shard world with primary key 1 in both "
     "shards; directed same-pk-in-several-shards programs; random programs. non-trivial (static) = the same "
@@ -41,7 +41,8 @@ TRUSTED = [
     "hand-written Gallina transcription (coq/orm/Shard.v) of ShardedSession._choose_shard_and_assign / "
     "_identity_lookup / get_bind / connection_callable, execute_and_instances, the identity-token handling of "
     "loading._load_on_ident / _set_get_options / _instance_processor and Session._get_impl, and of the unit of "
-    "work for one mapper (UPDATE pass, INSERT pass in add order, DELETE); pinned to the normalised source of "
+    "work for one mapper (UPDATE pass, INSERT pass in add order, one DELETE per deleted object), Session.merge/_merge for a "
+    "detached single-table object; pinned to the normalised source of "
     "the anchors and compared behaviourally on every run",
     "SQLite as the reference database of each shard (primary-key constraint, ORDER BY pk); harness reads the "
     "shard files with the sqlite3 module and the in-transaction rows through the session's own connections",
@@ -70,6 +71,10 @@ ANCHORS = [
     ("lib/sqlalchemy/orm/mapper.py", "Mapper._identity_key_from_state"),
     ("lib/sqlalchemy/orm/persistence.py", "_connections_for_states"),
     ("lib/sqlalchemy/orm/persistence.py", "_organize_states_for_save"),
+    ("lib/sqlalchemy/orm/persistence.py", "_organize_states_for_delete"),
+    ("lib/sqlalchemy/orm/persistence.py", "_collect_delete_commands"),
+    ("lib/sqlalchemy/orm/session.py", "Session.merge"),
+    ("lib/sqlalchemy/orm/session.py", "Session._merge"),
 ]
 
 NAMES = ["s0", "s1", "s2"]
@@ -201,6 +206,7 @@ def impl(c):
     from sqlalchemy import exc, inspect, select
     from sqlalchemy.ext.horizontal_shard import ShardedSession, set_shard_id
     from sqlalchemy.orm import exc as orm_exc
+    from sqlalchemy.orm import make_transient_to_detached
 
     env = _env()
     T, engines, files, log, hstate = env["T"], env["engines"], env["files"], env["log"], env["state"]
@@ -305,12 +311,13 @@ def impl(c):
                 elif code == 3:
                     sess.commit()
                 elif code == 4:
-                    o = pick(op[1])
-                    if o is None or not inspect(o).persistent:
+                    victims = [pick(x) for x in op[1]]
+                    if any(o is None or not inspect(o).persistent for o in victims):
                         err = 3
                         break
                     sess.flush()
-                    sess.delete(o)
+                    for o in victims:  # all of them are deleted by ONE flush
+                        sess.delete(o)
                     sess.flush()
                 elif code == 5:
                     _, kind, arg, tgt, how = op
@@ -341,6 +348,13 @@ def impl(c):
                     except exc.InvalidRequestError:
                         err = 5
                         break
+                elif code == 8:
+                    # a detached object whose identity key carries the shard: (T, (pk,), token)
+                    o = T(pk=op[1], grp=op[2], val=op[3])
+                    inspect(o).identity_token = NAMES[op[4]]
+                    make_transient_to_detached(o)
+                    m = sess.merge(o)
+                    ret = [2, num(m)]
                 else:
                     raise AssertionError("bad op")
             except exc.IntegrityError:
@@ -418,13 +432,15 @@ def _rand_op(rng, n, maxpk=4):
     if r < 0.50:
         return [3]
     if r < 0.58:
-        return [4, rng.randint(0, 7)]
+        return [4, [rng.randint(0, 7) for _ in range(rng.choice([1, 1, 2, 2, 3]))]]
     if r < 0.80:
         kind = rng.choice([0, 0, 1, 2, 3])
         arg = 0 if kind == 0 else rng.randint(0, 2) if kind == 1 else rng.randint(0, maxpk) if kind == 2 else rng.randint(0, 9)
         return [5, kind, arg, tgt(), rng.randint(0, 2)]
-    if r < 0.93:
+    if r < 0.90:
         return [6, rng.randint(0, maxpk), tgt()]
+    if r < 0.96:
+        return [8, rng.randint(0, maxpk), rng.randint(0, 2), rng.randint(0, 9), rng.randrange(n)]
     return [7, rng.randint(0, 7)]
 
 
@@ -455,20 +471,22 @@ _ALPHABET = [
     [1, 2, 1, 6],  # no net change
     [2],
     [3],
-    [4, 0],
-    [4, 2],
+    [4, [0]],
+    [4, [2]],
+    [4, [1, 2]],  # the objects with primary key 1 of BOTH shards in one flush
+    [8, 1, 0, 8, 0],  # merge onto (1, s0)
+    [8, 1, 1, 8, 1],  # merge onto (1, s1): same primary key, other shard
+    [8, 2, 0, 8, 0],  # no row (2, s0): new pending object
+    [8, 3, 1, 2, 1],  # (3, s1): the object added by the prefix, still pending before the autoflush
     [5, 0, 0, -1, 0],
     [5, 1, 1, -1, 1],
     [5, 2, 1, 0, 0],
     [5, 2, 1, 1, 2],
     [5, 0, 0, 1, 1],
-    [5, 3, 5, -1, 0],
     [6, 1, -1],
     [6, 1, 0],
     [6, 1, 1],
-    [6, 2, 0],
     [6, 4, -1],
-    [6, 4, 1],
     [7, 0],
     [7, 1],
 ]
@@ -494,9 +512,16 @@ def _samepk_case(rng):
     for s in rng.sample(range(n), rng.randint(1, n)):
         ops.append([0, k, s, s, -1] if sel == 1 else [0, k, 0, s, -1])
     tail = [[5, 2, k, -1, rng.randint(0, 1)], [5, 0, 0, -1, rng.randint(0, 1)], [6, k, rng.randrange(n)], [6, k, -1],
-            [1, rng.randint(0, 3), rng.randint(0, 2), rng.randint(0, 9)], [4, rng.randint(0, 3)], [7, rng.randint(0, 3)],
+            [1, rng.randint(0, 3), rng.randint(0, 2), rng.randint(0, 9)], [4, [rng.randint(0, 3)]], [7, rng.randint(0, 3)],
+            [4, [0, 1, 2, 3][: rng.randint(2, 4)]], [4, [rng.randint(0, 3), rng.randint(0, 3)]],
+            [8, k, rng.randint(0, 2), rng.randint(0, 9), rng.randrange(n)], [8, k, rng.randint(0, 2), rng.randint(0, 9), rng.randrange(n)],
             [3], [5, 2, k, rng.randrange(n), rng.randint(0, 2)]]
     rng.shuffle(tail)
+    if rng.random() < 0.5:  # load everything, delete several same-pk objects of different shards in one flush
+        ops += [[5, 0, 0, -1, 0], [4, list(range(rng.randint(2, 4)))], [5, 0, 0, -1, rng.randint(0, 1)]]
+    if n >= 2 and rng.random() < 0.5:  # only shard a's object is in the session when shard b's is merged
+        a, b = rng.sample(range(n), 2)
+        ops += [[6, k, a], [8, k, rng.randint(0, 2), rng.randint(0, 9), b], [3]]
     ops += tail[: rng.randint(2, 6)]
     return {"in": [n, sc, ic, ec, init, ops], "kind": "samepk"}
 
@@ -509,7 +534,7 @@ def gen_cases(rng, tier):
             cases.append(_fixed_case([a, b, [5, 0, 0, -1, 0]], "pairs"))
     for _ in range(3000 if tier == "thorough" else 200):
         cases.append(_samepk_case(rng))
-    for _ in range(12000 if tier == "thorough" else 500):
+    for _ in range(12000 if tier == "thorough" else 300):
         cases.append(_random_case(rng))
     return cases
 
@@ -535,6 +560,9 @@ def oracle(c, obs):
     trace, err, final = obs[:3]
     if err == 9:
         return "op %d %s raised %s" % (len(trace), ops[len(trace)], "".join(chr(x) for x in obs[3]))
+    if err == 2 and (ops[len(trace)][0] == 8 or (ops[len(trace)][0] == 6 and ops[len(trace)][2] >= 0)):
+        return "op %d %s raised MultipleResultsFound although an identity token names the only shard to consult" % (
+            len(trace), ops[len(trace)])
     prev_states = []
     prev_snap = [sorted(list(r) for r in rows) for rows in init]
     for k, (ret, writes, reads, states, snap) in enumerate(trace):
@@ -579,6 +607,25 @@ def oracle(c, obs):
                 [w[1:5] for w in writes if w[0] == 0], flushed)
         if op[0] in (2, 3, 4, 5, 7) and any(st[0] == 0 for st in states):
             return where + "a flush left pending objects: %s" % (states,)
+        for j, st in enumerate(states):
+            was = prev_states[j] if j < len(prev_states) else None
+            if was is not None and was[0] == 1 and st[0] == 2 and any(r[0] == st[2] for r in snap[st[1]]):
+                return where + "object %d (pk %d, shard %d) was deleted and flushed but its row is still in shard %d: %s" % (
+                    j, st[2], st[1], st[1], snap[st[1]])
+        if op[0] == 8:
+            t, given = op[4], op[1:4]
+            o = ret[1]
+            st = states[o]
+            if st[2:5] != given:
+                return where + "merge returned object %s, the given values are %s" % (st, given)
+            present = any(r[0] == given[0] for r in snap[t])
+            if st[0] == 1 and (st[1] != t or not present):
+                return where + "merge of identity (pk %d, shard %d) returned the persistent object %s" % (given[0], t, st)
+            if st[0] == 0 and present:
+                return where + "merge created a new object although shard %d has the row with pk %d" % (t, given[0])
+            for j, (was, now) in enumerate(zip(prev_states, states)):
+                if j != o and was[2:5] != now[2:5]:
+                    return where + "merge of identity (pk %d, shard %d) changed another object: %s -> %s" % (given[0], t, was, now)
         # ---- clause 3: identity key = (pk, token)
         keys = [(st[2], st[1]) for st in states if st[0] == 1]
         if len(set(keys)) != len(keys):
@@ -644,7 +691,8 @@ LEVEL_NOTE = (
     "PARTIAL with respect to the ORM surface: one mapped class with a client-supplied integer primary key; "
     "operations add / attribute assignment / flush / commit / delete / select (4 predicates, ORDER BY pk; "
     "2.0-style, legacy Query, set_shard, bind_arguments shard_id, set_shard_id option) / get with and without "
-    "identity_token / refresh. NOT covered: relationships and lazy/eager loaders (lazy_loaded_from, "
+    "identity_token / refresh / delete of several objects in one flush / merge of a detached object whose key carries "
+    "a shard token. NOT covered: relationships and lazy/eager loaders (lazy_loaded_from, "
     "propagate_to_loaders), ORM-enabled bulk UPDATE/DELETE and their synchronize_session, row switch, expired "
     "attributes and expire_on_commit=True, continuation after an exception/rollback, the deprecated "
     "id_chooser/query_chooser wrappers, unbound shard ids (KeyError), two-phase commit. Trusted: Coq kernel; the "
